@@ -443,7 +443,10 @@ def discharge_assert_in_caller(mir, s, param_ranges=None):
         for n in mir.bodies:
             if not n.endswith("#promoted") and "{closure" not in n and n != g and sole_caller(mir, n) in ([g] + list(helpers)):
                 helpers.add(n)
-        ib = inline_calls(gb, lambda d: d in helpers, depth=4)
+        gmod = (g[1:].split(" as ")[0] if g.startswith("<") else g).rsplit("::", 2)[0] + "::"
+        # inlining is always sound: besides the helper itself, any function of the caller's module that the caller uses to build the
+        # helper's arguments (a table lookup such as `self.limits()`) is inlined too
+        ib = inline_calls(gb, lambda d: d in helpers or (d.startswith(gmod) and "{closure" not in d and d != g), depth=4)
         if ib is gb:
             continue
         cands = [bb for bb, bl in enumerate(ib.blocks) if bl["term"] and bl["term"]["k"] == "assert" and bl["term"]["line"] == s["line"]
